@@ -30,8 +30,8 @@ pub static DEF: CheckDef = CheckDef {
 fn families(t: Tier) -> Vec<(&'static str, u64)> {
     vec![
         ("topo", t.n(6_000, 66_822)),
-        ("dag-exact", t.n(15_000, 400_000)),
-        ("dag-smooth", t.n(10_000, 300_000)),
+        ("dag-exact", t.n(15_000, 1_200_000)),
+        ("dag-smooth", t.n(10_000, 900_000)),
         ("readme", t.n(800, 30_000)),
         ("fanin", t.n(300, 10_000)),
     ]
